@@ -57,40 +57,53 @@ def allows (rs : Roots) (m host path : Bytes) : Bool × Bool :=
   | .found r _ tsr => (!tsr || r.ignoreTS, tsr && r.ignoreTS && m == CONNECT)
   | _ => (false, false)
 
+/-- methods (with the F17 marker) the OPTIONS branch lists -/
+def optionsHits (rs : Roots) (host path : Bytes) : List (Bytes × Bool) :=
+  if path == [STAR] then
+    (rs.filter fun x => x.1 != OPTIONS && !x.2.children.isEmpty).map fun x => (x.1, false)
+  else
+    rs.filterMap fun x => let a := allows rs x.1 host path; if a.1 then some (x.1, a.2) else none
+
+/-- methods the 405 branch lists -/
+def noMethodHits (rs : Roots) (m host path : Bytes) : List (Bytes × Bool) :=
+  rs.filterMap fun x =>
+    if x.1 == m then none else
+    let a := allows rs x.1 host path; if a.1 then some (x.1, a.2) else none
+
+def optionsOutcome (hits : List (Bytes × Bool)) : Outcome :=
+  if hits.isEmpty then { kind := .noRoute }
+  else { kind := .options, allow := hits.map (·.1) ++ [OPTIONS],
+         tags := if hits.any (·.2) then ["allow-connect-tsr"] else [] }
+
+def noMethodOutcome (cfg : Cfg) (hits : List (Bytes × Bool)) : Outcome :=
+  if hits.isEmpty then { kind := .noRoute }
+  else
+    { kind := .noMethod,
+      allow := hits.map (·.1) ++ (if cfg.autoOptions && !(hits.any (·.1 == OPTIONS)) then [OPTIONS] else []),
+      tags := if hits.any (·.2) then ["allow-connect-tsr"] else [] }
+
+/-- the part of `ServeHTTP` after the route dispatch: automatic OPTIONS, 405, 404 -/
+def special (cfg : Cfg) (rs : Roots) (m host path : Bytes) : Outcome :=
+  if m == OPTIONS && cfg.autoOptions then optionsOutcome (optionsHits rs host path)
+  else if cfg.noMethod then noMethodOutcome cfg (noMethodHits rs m host path)
+  else { kind := .noRoute }
+
+/-- what ServeHTTP does with a trailing-slash candidate `r` -/
+def onTsr (cfg : Cfg) (rs : Roots) (m host path urlPath : Bytes) (r : Route) (ps : Binds) : Outcome :=
+  if m != CONNECT && urlPath != [SLASH] then
+    if r.ignoreTS then { kind := .route, route := some r, params := ps, tags := ["ignore-ts"] }
+    else if r.redirectTS && path == cleanRef path then
+      { kind := .redirect, code := if m == GET then 301 else 308, route := some r, tags := ["redirect-ts"] }
+    else { special cfg rs m host path with tags := (special cfg rs m host path).tags ++ ["tsr-unserved"] }
+  else { special cfg rs m host path with tags := (special cfg rs m host path).tags ++ ["tsr-guarded"] }
+
 /-- `ServeHTTP`. `path` is the string the matcher sees (RawPath if set, else Path), `urlPath` is URL.Path. -/
 def serve (cfg : Cfg) (rs : Roots) (m host path urlPath : Bytes) : Outcome :=
-  let special : Outcome :=
-    if m == OPTIONS && cfg.autoOptions then
-      let hits : List (Bytes × Bool) :=
-        if path == [STAR] then
-          (rs.filter fun x => x.1 != OPTIONS && !x.2.children.isEmpty).map fun x => (x.1, false)
-        else
-          rs.filterMap fun x => let a := allows rs x.1 host path; if a.1 then some (x.1, a.2) else none
-      if hits.isEmpty then { kind := .noRoute }
-      else { kind := .options, allow := hits.map (·.1) ++ [OPTIONS],
-             tags := if hits.any (·.2) then ["allow-connect-tsr"] else [] }
-    else if cfg.noMethod then
-      let hits : List (Bytes × Bool) :=
-        rs.filterMap fun x =>
-          if x.1 == m then none else
-          let a := allows rs x.1 host path; if a.1 then some (x.1, a.2) else none
-      if hits.isEmpty then { kind := .noRoute }
-      else
-        let hasOptions := hits.any (·.1 == OPTIONS)
-        { kind := .noMethod, allow := hits.map (·.1) ++ (if cfg.autoOptions && !hasOptions then [OPTIONS] else []),
-          tags := if hits.any (·.2) then ["allow-connect-tsr"] else [] }
-    else { kind := .noRoute }
   match lookup rs m host path with
   | .bad => { kind := .bad }
   | .found r ps false => { kind := .route, route := some r, params := ps, tags := ["direct"] }
-  | .found r ps true =>
-    if m != CONNECT && urlPath != [SLASH] then
-      if r.ignoreTS then { kind := .route, route := some r, params := ps, tags := ["ignore-ts"] }
-      else if r.redirectTS && path == cleanRef path then
-        { kind := .redirect, code := if m == GET then 301 else 308, route := some r, tags := ["redirect-ts"] }
-      else { special with tags := special.tags ++ ["tsr-unserved"] }
-    else { special with tags := special.tags ++ ["tsr-guarded"] }
-  | .none => special
+  | .found r ps true => onTsr cfg rs m host path urlPath r ps
+  | .none => special cfg rs m host path
 
 end Fox.Model
 
